@@ -176,6 +176,19 @@ def pp_storm(rng):
             ls.append(rng.choice(["", "  \\", "! c", f"#include \"{n}.h\"", "#define", "#if", "#undef"]))
     for _ in range(max(0, depth) if rng.random() < 0.7 else 0):
         ls.append("#endif")
+    if rng.random() < 0.3:
+        # macros that (directly or mutually) refer to themselves, and a line that uses them
+        cyc = rng.sample(["P", "Q", "R", "S"], rng.randint(1, 3))
+        at = rng.randrange(len(ls) + 1)
+        extra = []
+        for k, c in enumerate(cyc):
+            nx = cyc[(k + 1) % len(cyc)]
+            if rng.random() < 0.5:
+                extra.append(f"#define {c} {nx}" + rng.choice(["", " + 1", f" {nx}", "(1)"]))
+            else:
+                extra.append(f"#define {c}(a) {nx}(a{rng.choice(['', '+1', ',a'])})")
+        extra.append(rng.choice([f"  x = {cyc[0]}", f"  y = {cyc[0]}(2)", f"#if {cyc[0]}", f"  z = {cyc[-1]} + {cyc[0]}(3)"]))
+        ls[at:at] = extra
     return "\n".join(ls) + "\n"
 
 
@@ -386,7 +399,7 @@ def gen_sched(g):
     return {"argv": argv, "tree": {p: (v if isinstance(v, str) else __import__("dst.sim", fromlist=["x"]).enc_bytes(v))
                                    for p, v in tree.items()},
             "ops": b.ops, "faults": faults, "sync_kind": 2, "strict_edits": True,
-            "oracles": ["c03"], "sentinel_tag": tag,
+            "oracles": ["c03"], "sentinel_tag": tag, "budget": 6_000_000,
             "kind": kind, "base": name, "ntexts": b.ntexts,
             "pool": {"assign": [0]}}
 
